@@ -3,8 +3,11 @@ pub mod c03;
 pub mod c04;
 pub mod c05;
 pub mod c06;
+pub mod c07;
+pub mod c08;
 pub mod c09;
 pub mod c10;
+pub mod c11;
 pub mod c14;
 pub mod c15;
 pub mod c16;
@@ -41,8 +44,11 @@ const TABLE: &[Entry] = &[
     entry!("C04", "exploration", 55, 1500, c04),
     entry!("C05", "model_checking", 55, 1500, c05),
     entry!("C06", "model_checking", 50, 1500, c06),
+    entry!("C07", "exploration", 55, 1500, c07),
+    entry!("C08", "exploration", 50, 1500, c08),
     entry!("C09", "model_checking", 50, 1500, c09),
     entry!("C10", "exploration", 50, 1500, c10),
+    entry!("C11", "exploration", 50, 1500, c11),
     entry!("C14", "exploration", 50, 1500, c14),
     entry!("C15", "exploration", 50, 900, c15),
     entry!("C16", "model_checking", 50, 1500, c16),
